@@ -23,7 +23,8 @@
   `tessellate_path`, a PROGRAM for the builders (several sub-paths, shape helpers incl. the thin
   rectangle with its temporarily widened options, option setters between and inside sub-paths; the
   attribute store fed by `SimpleAttributeStore::add` into the recycled store and read back by `get`),
-  a refused vertex (emitted prefix, `Err`), a dropped builder, a rejected call — and this exact
+  a refused vertex (once, twice, from then on: emitted prefix, `Err`, one refused call), a vertex
+  constructor that panics (the call unwinds), a dropped builder, a rejected call — and this exact
   definition is executed by the C08 model driver over whole histories against one real reused
   `StrokeTessellator` (family `stroke_reuse:32`, bit for bit).  The proofs stay short because the code
   is that simple: every path from the object's fields to the stroker goes through `reset(n)` /
@@ -107,12 +108,12 @@ theorem stroke_history_outputs_full_object (ix : Ix α) (t0 : StrokeT α) (hist 
 call — the calls both can express — its output is the output of `strokeFullCallB`. -/
 theorem stroke_object_fw_is_attrs_call (ix : Ix α) (t : StrokeT α) (o : Opts α) (evs : List (PathEv α))
     (attrs : List (List α)) (scribble : List α) :
-    (strokeCallF ix t ⟨.fw o evs, none⟩).2 =
+    (strokeCallF ix t ⟨.fw o evs, none, none⟩).2 =
       match (strokeFullCallB ix t ⟨.events, evs, attrs, o, scribble⟩).2 with
       | none => OutF.panic
-      | some (out, l) => ⟨.ok, out.verts, l, out.tris⟩ := by
+      | some (out, l) => ⟨.ok, out.verts, l, out.tris, 0⟩ := by
   simp only [strokeCallF, finishF, coreOutF, strokeFullCallB, strokeFullCall, callStore, storeFnF,
-    BodyF.entry, BodyF.isDropped, cutVerts, cutTris, wasRefused]
+    BodyF.entry, BodyF.isDropped, cutVerts, cutTris, wasRefused, ctorPanics]
   cases h : tessellateFw (Env.new o ix) evs with
   | none => rfl
   | some out =>
